@@ -250,6 +250,22 @@ def r17_4(run):
         r = g.reachable([g.entry], avoid=lambda n: n in waitn, skip_edges=set(already))
         run.ob('R17.4', li, rn.ast, 'listen resolves only after the service creation (and its descriptor wait) is over', rn not in r, slot='return-after-create',
                message='listen can return before "yield create_d" on a path where the service was not already configured')
+    # the already-configured leg adopts the configured service whose directory is this endpoint's (and no other one)
+    adopt = [n for n in g.real_nodes() if n.kind == 'stmt' and isinstance(n.ast, ast.Assign) and assign_to(n.ast, 'self.hiddenservice') is not None and
+             isinstance(n.ast.value, ast.Name) and any(lab == 'T' for t, lab in g.guarded_by(n, lambda t: dotted(t) in already_names(li)))]
+    for n in adopt:
+        hs = n.ast.value.id
+        gd = g.guarded_by(n, lambda t: isinstance(t, ast.Compare) and len(t.ops) == 1 and isinstance(t.ops[0], (ast.Eq, ast.NotEq)))
+        ok = False
+        for t, lab in gd:
+            sides = [src(t.ast.left), src(t.ast.comparators[0])]
+            mine = [x for x in sides if 'self.hidden_service_dir' in x]
+            theirs = [x for x in sides if x not in mine and hs in [y.id for y in ast.walk(ast.parse(x)) if isinstance(y, ast.Name)] and 'dir' in x]
+            if mine and theirs and (lab == 'T') == isinstance(t.ast.ops[0], ast.Eq):
+                ok = True
+        run.ob('R17.4', li, n.ast, 'an already-configured service is adopted only when its directory is the endpoint\'s', ok, slot='adopt-by-directory',
+               message='listen adopts %s as its service without having established that its directory equals hidden_service_dir: the port object reports another '
+                       'service\'s hostname' % hs)
     lp = run.idx.cls('TorOnionListeningPort', MOD)
     sl = run.idx.find_method(lp, 'stopListening')
     init = run.idx.find_method(lp, '__init__')
@@ -434,6 +450,8 @@ RULES = [
 from ..selftest import M  # noqa: E402
 F = 'txtorcon/endpoints.py'
 MUTANTS = [
+    M('adopts-other-service', F, "                    if getattr(hs, 'dir', None) == os.path.abspath(self.hidden_service_dir):", "                    if getattr(hs, 'dir', None) != os.path.abspath(self.hidden_service_dir):", ['R17.4']),
+    M('adopts-last-service', F, "                    if getattr(hs, 'dir', None) == os.path.abspath(self.hidden_service_dir):\n                        self.hiddenservice = hs", "                    self.hiddenservice = hs", ['R17.4']),
     M('keyfile-loaded-after-conflict-test', F, ["        if privateKeyFile is not None:\n            if privateKey is not None:", "        if hiddenServiceDir is not None and privateKey is not None:\n            raise ValueError(\n                \"Only one of hiddenServiceDir and privateKey/privateKeyFile accepted\"\n            )\n\n        if singleHop is not None:"], ["        if hiddenServiceDir is not None and privateKey is not None:\n            raise ValueError('conflict')\n        if privateKeyFile is not None:\n            if privateKey is not None:", "        if singleHop is not None:"], ['R17.5']),
     M('auth-address-no-uri', F, "            try:\n                self.onion_uri = _maybe_unique_host(hs)\n            except ValueError:", "            try:\n                _maybe_unique_host(hs)\n            except ValueError:", ['R17.4']),
     M('config-bootstrap-removed', F, "        yield self._config.post_bootstrap\n", "", ['R17.6']),
